@@ -24,49 +24,7 @@ UNPH = "pybrops/popgen/gmat/DenseGenotypeMatrix.py"
 PHAS = "pybrops/popgen/gmat/DensePhasedGenotypeMatrix.py"
 
 
-def elementwise_bool(expr):
-    """numpy writes element-wise boolean algebra with | & ~ on comparison results: rewrite to or/and/not (only when every
-    operand is itself a comparison or such a combination - anything else is refused by pyexpr later)"""
-    if isinstance(expr, ast.BinOp) and isinstance(expr.op, (ast.BitOr, ast.BitAnd)):
-        l, r = elementwise_bool(expr.left), elementwise_bool(expr.right)
-        for s in (l, r):
-            if not isinstance(s, (ast.Compare, ast.BoolOp, ast.UnaryOp)):
-                raise P.Untranslatable("| or & applied to a non-comparison: " + ast.unparse(expr))
-        return ast.BoolOp(op=ast.Or() if isinstance(expr.op, ast.BitOr) else ast.And(), values=[l, r])
-    if isinstance(expr, ast.UnaryOp) and isinstance(expr.op, ast.Invert):
-        return ast.UnaryOp(op=ast.Not(), operand=elementwise_bool(expr.operand))
-    return expr
-
-
-def bind(expr, table):
-    """replace every sub-expression whose source text is a key of `table` by the (python) name given there, so that a whole
-    array expression such as `self._mat.sum(self.taxa_axis)` can be bound as ONE variable of the kernel.  Every key must
-    occur (otherwise the kernel no longer has the shape this translator describes)."""
-    seen = set()
-
-    class T(ast.NodeTransformer):
-        def visit(self, node):
-            if isinstance(node, ast.expr):
-                txt = ast.unparse(node)
-                if txt in table:
-                    seen.add(txt)
-                    return ast.copy_location(ast.Name(id=table[txt], ctx=ast.Load()), node)
-            return self.generic_visit(node)
-    import copy
-    out = T().visit(copy.deepcopy(expr))
-    missing = set(table) - seen
-    if missing:
-        raise P.Untranslatable("expected sub-expression(s) %s in %s" % (sorted(missing), ast.unparse(expr)))
-    return out
-
-
-def _shape_first_dim(fn, target):
-    """first element of the shape tuple of `target = numpy.empty((a, b, ...), ...)` / numpy.zeros (must be a plain name)"""
-    call = P.the_assignment(fn, target, index=0)
-    if not (isinstance(call, ast.Call) and ast.unparse(call.func) in ("numpy.empty", "numpy.zeros") and call.args
-            and isinstance(call.args[0], ast.Tuple) and call.args[0].elts and isinstance(call.args[0].elts[0], ast.Name)):
-        raise P.Untranslatable("%s: %s is not allocated by numpy.empty/zeros((name, ...))" % (fn.name, target))
-    return call.args[0].elts[0].id
+from translate.kernelkit import bind, elementwise_bool, shape_first_dim as _shape_first_dim
 
 
 def translate(repo, gen_dir):
